@@ -315,6 +315,7 @@ impl<'a> Norm<'a> {
                     *p = parse_quote!(#id);
                 }
                 Pat::Tuple(t) => { for el in t.elems.iter_mut() { walk(el, no, lets); } }
+                Pat::TupleStruct(t) => { for el in t.elems.iter_mut() { walk(el, no, lets); } }
                 Pat::Paren(pp) => walk(&mut pp.pat, no, lets),
                 _ => {}
             }
@@ -708,6 +709,26 @@ impl<'a> VisitMut for Norm<'a> {
                 for (j, arm) in m.arms.iter_mut().enumerate() {
                     if let Some((_, g)) = &mut arm.guard { self.visit_expr_mut(g); }
                     self.visit_expr_mut(&mut arm.body);
+                    // R-REFPAT in match arms: `Some(&x) => B` -> `Some(__vx_xK) => { let x = *__vx_xK; B }` (unguarded arms only)
+                    fn ident_refs_only(p: &Pat) -> bool {
+                        match p {
+                            Pat::Reference(r) => matches!(&*r.pat, Pat::Ident(pi) if pi.subpat.is_none() && pi.by_ref.is_none()),
+                            Pat::Tuple(t) => t.elems.iter().all(ident_refs_only),
+                            Pat::TupleStruct(t) => t.elems.iter().all(ident_refs_only),
+                            Pat::Paren(pp) => ident_refs_only(&pp.pat),
+                            _ => true,
+                        }
+                    }
+                    if arm.guard.is_none() && ident_refs_only(&arm.pat) {
+                        let mut holder: Block = parse_quote!({});
+                        self.forpat(&mut arm.pat, &mut holder);
+                        if !holder.stmts.is_empty() {
+                            let body = (*arm.body).clone();
+                            let lets = &holder.stmts;
+                            *arm.body = parse_quote!({ #(#lets)* #body });
+                            if arm.comma.is_none() { arm.comma = Some(Default::default()); }
+                        }
+                    }
                     let a0 = self.anchor(&format!("match{}.arm{}.start", n, j + 1));
                     let a1 = self.anchor(&format!("match{}.arm{}.end", n, j + 1));
                     if !a0.is_empty() || !a1.is_empty() {
